@@ -16,6 +16,7 @@ import (
 
 	nebula "github.com/slackhq/nebula"
 	"github.com/slackhq/nebula/config"
+	"github.com/slackhq/nebula/firewall"
 	"verifharness/hx"
 )
 
@@ -263,9 +264,56 @@ func runFwConfig(c *hx.Ctx) {
 		addPort(genPortText(c), "port-gen")
 	}
 	// 2. configurations
-	nConf := c.N / 2
+	// boundary corpus: selectors that are present but empty, each alone and next to one real selector, both directions
+	// (a rule whose only selectors are empty must be refused: loaded, it would be an allow-any-host rule)
+	type emptySel struct {
+		key string
+		val any
+	}
+	emptyShapes := []emptySel{
+		{"groups", []any{}}, {"groups", []any{""}}, {"groups", ""}, {"groups", yNull{}}, {"group", ""}, {"group", []any{""}}, {"group", yNull{}},
+		{"host", ""}, {"cidr", ""}, {"local_cidr", ""}, {"ca_name", ""}, {"ca_sha", ""}, {"host", yNull{}}, {"none", ""},
+	}
+	realSels := []emptySel{{"", nil}, {"host", "h1"}, {"group", "a"}, {"groups", []any{"a", "b"}}, {"cidr", "10.0.0.0/24"}, {"local_cidr", "any"},
+		{"ca_name", "ca1"}, {"ca_sha", "s1"}}
+	var corpus []struct {
+		inbound bool
+		rules   []any
+	}
+	for _, inb := range []bool{true, false} {
+		for _, es := range emptyShapes {
+			for _, rs := range realSels {
+				if rs.key == es.key {
+					continue
+				}
+				for _, proto := range []string{"tcp", "any"} {
+					m := map[string]any{"proto": proto, "port": "80", es.key: es.val}
+					if proto == "any" {
+						m["port"] = "any"
+					}
+					if rs.key != "" {
+						m[rs.key] = rs.val
+					}
+					corpus = append(corpus, struct {
+						inbound bool
+						rules   []any
+					}{inb, []any{m}})
+				}
+			}
+		}
+		// every selector present and empty at once
+		corpus = append(corpus, struct {
+			inbound bool
+			rules   []any
+		}{inb, []any{map[string]any{"proto": "any", "port": "any", "groups": []any{}, "group": "", "host": "", "cidr": "", "local_cidr": "", "ca_name": "", "ca_sha": ""}}})
+	}
+	nConf := c.N/2 + len(corpus)
 	for ci := 0; ci < nConf; ci++ {
 		inbound := c.Chance(0.6)
+		fromCorpus := ci < len(corpus)
+		if fromCorpus {
+			inbound = corpus[ci].inbound
+		}
 		key := "outbound"
 		if inbound {
 			key = "inbound"
@@ -274,6 +322,8 @@ func runFwConfig(c *hx.Ctx) {
 		var tblText string
 		absent := false
 		switch {
+		case fromCorpus:
+			tblText = yText(corpus[ci].rules)
 		case c.Chance(0.03):
 			absent = true
 		case c.Chance(0.03):
@@ -393,6 +443,26 @@ func runFwConfig(c *hx.Ctx) {
 				if len(rec.Rules) > 0 && c.Chance(0.75) {
 					w.aim(rec.Rules[c.Intn(len(rec.Rules))], &peer, &pkt)
 				}
+				if pi < 2 {
+					// a peer nobody selected: no groups, a name no rule uses, an issuer no rule names; authentic addresses, and a
+					// packet on the first rule's protocol and port: only an any-host rule lets it through
+					peer = nebula.VerifFwCert{Name: "nobody", Issuer: "s9", Networks: []netip.Prefix{mp("10.0.0.77/24")}}
+					pkt = firewall.Packet{LocalAddr: ma("10.0.0.1"), RemoteAddr: ma("10.0.0.77"), LocalPort: 80, RemotePort: 80, Protocol: nebula.VerifFwProtoTCP}
+					incoming = inbound
+					if len(rec.Rules) > 0 {
+						r := rec.Rules[0]
+						if r.Proto != nebula.VerifFwProtoAny {
+							pkt.Protocol = r.Proto
+						}
+						if r.Start > 0 {
+							pkt.LocalPort, pkt.RemotePort = uint16(r.Start), uint16(r.Start)
+						}
+						if pi == 1 {
+							pkt.Fragment = r.Start == -1
+							pkt.LocalPort, pkt.RemotePort = pkt.RemotePort+1, pkt.LocalPort+1
+						}
+					}
+				}
 				hp := fw.NewPeer(peer)
 				fw.ResetConntrack()
 				class, before, after := fw.Drop(pkt, incoming, hp, nil)
@@ -404,6 +474,9 @@ func runFwConfig(c *hx.Ctx) {
 		lit := hx.App("CConf", hx.Bool(inbound), tblLit, hx.List(ppLits), hx.N(uint64(recClass)), hx.List(recLits),
 			hx.App("mkConf", fwPfxList(w.my.Networks), fwPfxList(w.my.Unsafe), hx.Bool(w.dlca)), hx.N(uint64(fwClass)), poolLit, hx.List(probeLits))
 		kind := []string{"conf-loaded", "conf-refused", "conf-panic"}[recClass]
+		if fromCorpus {
+			kind = "corpus-empty-selector-" + kind[5:]
+		}
 		cw.Add(lit, kind, recClass == 0 && len(rec.Rules) > 0, map[string]any{"op": "conf", "yaml": text, "inbound": inbound, "rec_class": recClass, "fw_class": fwClass,
 			"rules": jrules, "probes": jprobes})
 	}
